@@ -204,3 +204,38 @@ Proof.
 Qed.
 
 Print Assumptions crash_check_sound.
+
+(* ------------------------------------------------------------------ the block check
+   Agreement means agreement with a configuration the machine reaches (no invariant is claimed here: a block whose inner
+   calls release value files is not a well-behaved body, and the configurations it reaches may hold dangling rows --
+   that is what is being compared). *)
+Theorem block_check_reaches c s0 setup prog events seen0 final :
+  block_check c s0 setup prog events seen0 final = -1 ->
+  exists su p sch,
+    compile_all c setup = Some su /\ compile_bitems c prog = Some p /\
+    let cf := exec (init_config s0 (prog_fun [p] su)) sch in
+    finished cf 0 = true /\ outcomes_match (c_done (cl cf 0)) seen0 = true /\ disk_matches_b cf final = true.
+Proof.
+  unfold block_check. intros H.
+  destruct (compile_all c setup) as [su|]; [|discriminate].
+  destruct (compile_bitems c prog) as [p|]; [|discriminate].
+  set (c0 := init_config s0 (prog_fun [p] su)) in *.
+  destruct (negb (finished (solo _ c0 1) 1)); [discriminate|].
+  destruct (feed _ 0 events) as [c2|k] eqn:F.
+  - destruct (solo_exec (20 * S (length su)) c0 1) as [s1 H1].
+    destruct (feed_exec _ _ _ _ F) as [s2 H2].
+    destruct (settle_exec SILENT_FUEL c2 0) as [s3 H3].
+    destruct (finished (settle SILENT_FUEL c2 0) 0 && outcomes_match _ seen0) eqn:O; [|discriminate].
+    destruct (disk_matches_b _ final) eqn:Dm; [|discriminate].
+    apply andb_true_iff in O as [O1 O2].
+    exists su, p, (s1 ++ s2 ++ s3). split; [reflexivity|]. split; [reflexivity|]. cbv zeta.
+    assert (E : exec c0 (s1 ++ s2 ++ s3) = settle SILENT_FUEL c2 0).
+    { rewrite <- !exec_app, H1, H2, H3. reflexivity. }
+    unfold c0 in E. rewrite E. repeat split; assumption.
+  - exfalso. revert H F. generalize (solo (20 * S (length su)) c0 1). intros cc H F.
+    assert (K : forall l (x : mconfig) n k, 0 <= n -> feed x n l = inr k -> 0 <= k).
+    { induction l as [|[i t] r IHl]; intros x n k0 Hn Hf; cbn [feed] in Hf; [discriminate|].
+      destruct (visible SILENT_FUEL x i t) as [m|]; [apply (IHl m (n + 1)); [lia|exact Hf]|inversion Hf; lia]. }
+    specialize (K _ _ _ _ (Z.le_refl 0) F). lia.
+Qed.
+Print Assumptions block_check_reaches.
